@@ -160,6 +160,8 @@ POS = {
     # a negative value right of a minus must not open a comment ("--")
     "arith_sub": lambda Q, v: Q.from_(_t()).select(_t().a - v),
     "arith_sub_prod": lambda Q, v: Q.from_(_t()).select((_t().a - v) * _t().b),
+    "arith_sub_negprod": lambda Q, v: Q.from_(_t()).select(_t().a - W(v) * _t().b),
+    "arith_sub_negquot": lambda Q, v: Q.from_(_t()).select(_t().a - (W(v) / _t().b) * 2),
     "arith_sub_where": lambda Q, v: Q.update(_t()).set(_t().a, _t().a - v).where(_t().b > 0),
     "subquery_where": lambda Q, v: Q.from_(_t()).select("a").where(_t().a.isin(Q.from_(Table("u")).select("x").where(Table("u").y == v))),
     "union_operand": lambda Q, v: Q.from_(_t()).select("a").union(Q.from_(Table("u")).select("x").where(Table("u").y == v)),
@@ -169,7 +171,8 @@ POS.pop("returning")
 # positions that accept only some kinds
 ONLY = {"like": {"str"}, "json_key": {"str", "int"}, "json_has_key": {"str"}, "arith": {"int", "float", "decimal", "str"},
         "arith_sub": {"int", "float", "decimal", "enum", "bool"}, "arith_sub_prod": {"int", "float", "decimal", "enum"},
-        "arith_sub_where": {"int", "float", "decimal", "enum"}}
+        "arith_sub_where": {"int", "float", "decimal", "enum"}, "arith_sub_negprod": {"int", "float", "decimal"},
+        "arith_sub_negquot": {"int", "float", "decimal"}}
 JSON_POS = {"json_term": lambda Q, v: Q.from_(_t()).select(JSON(v)),
             "json_contains": lambda Q, v: Q.from_(_t()).select("a").where(_t().j.contains(v)),
             "select": POS["select"], "where_eq": POS["where_eq"], "insert_row": POS["insert_row"], "set": POS["set"],
@@ -344,8 +347,8 @@ def run_case(case):
     v = value_of(kind, case["tag"])
     Q = fp.QCLS[d]
     fn0 = positions_for(kind)[pos]
-    if pos in ("json_term", "json_contains"):
-        fn = fn0
+    if pos in ("json_term", "json_contains", "col_default"):
+        fn = fn0  # (a list given as a column default is a value, not an array)
     else:
         fn = lambda Q, x: fn0(Q, W(x) if isinstance(x, list) else x)  # a bare list would be an Array / a row
     if pos in ("do_update", "col_default") and v is None:
@@ -410,6 +413,12 @@ def run_case(case):
         alts = [[("JSON", v)]]  # JSON('x') denotes the JSON string "x"
     # the benign value's own group length tells how many tokens of the benign stream differ: must be 1
     bmid = bt[i:len(bt) - j]
+    if pos in ("arith_sub_negprod", "arith_sub_negquot") and len(mid) > 2 and mid[0].text == "(" and mid[-1].text == ")":
+        # x-(-1*y): the negative factor needs grouping together with its product; compare inside the parentheses
+        mid, bmid = list(mid[1:-1]), list(bmid)
+        while mid and bmid and (mid[-1].kind, mid[-1].value) == bmid[-1]:
+            mid.pop()
+            bmid.pop()
     ok = len(bmid) <= 1 and group_matches(mid, alts)
     span = mid
     if not ok and len(bmid) == 0:
